@@ -48,8 +48,17 @@ def x_c20(run):
                      c=rnd.choice([None, 1, 2, 4]))
         flen = rnd.choice([0, 1, 100, bs - 1, bs, bs + 1, 2 * bs, 2 * bs + 17, rnd.randrange(3 * bs)])
         lvl = LEVELS[flags["l"] or 0]
-        kind = rnd.choice([0, 1, 2, 3, 4, 5] if lvl < 4096 else [0, 2, 5])
+        kind = rnd.choice([0, 1, 2, 3, 4, 5, 6, 7, 7] if lvl < 4096 else [0, 2, 5, 6, 7])
         if lvl >= 4096: flen = min(flen, 100000)
+        if i < 8:
+            # directed: a stored (incompressible) block followed by compressible ones through one sequential
+            # Writer, and the other way round, at every -c
+            flags["c"] = [1, 1, None, 2, 1, 4, 1, None][i]
+            kind = [6, 7, 6, 7, 5, 6, 7, 7][i]
+            flen = [2 * bs, 4 * 65536 + 100, 2 * bs + 17, 5 * 65536, 2 * bs, 3 * bs, 3 * 65536, 6 * 65536][i]
+            if kind == 7:
+                szname, bs = "64K", 65536
+                flags["size"] = szname
         tok = f"{kind}.{rnd.randrange(1000)}.{flen}"
         mode = rnd.choice([0o644, 0o600, 0o640, 0o755, 0o444])
         stdin = rnd.random() < 0.25
@@ -62,7 +71,9 @@ def x_c20(run):
     spec_req, spec_exp = [], []
     for idx, (i, fl, tok, flen, mode, stdin, bs, lvl) in enumerate(cases):
         run.cov["evaluations"] += 1
-        name = os.path.join(wd, f"f{i}.dat")
+        # file names: endings made of the extension's own characters, several dots, the extension inside, spaces
+        stem = rnd.choice(["f{}.dat", "small{}l", "report_v{}4", "backup{}.tar.z", "block_{}64", "x{}.", "a{}.lz4.dat", "n{}.lz", "{}", "z{}..4z.l"]).format(i)
+        name = os.path.join(wd, stem)
         data = subprocess.run([vh, "data", tok], stdout=subprocess.PIPE).stdout
         open(name, "wb").write(data)
         os.chmod(name, mode)
